@@ -19,9 +19,9 @@ NoV == [n |-> 0, k |-> "none", o |-> "none"]
 NoO == [n |-> 0, o |-> "none"]
 
 VARIABLES l, sc, L1, L2, L3, inCr, fS, fL, run, cnt, mpc, orderOK, erCnt, seenRefs, reentered,
-          failedEver, created, depsOK, popOK, endOK, faultOK, lazyOK, selfOnlyOK, lookupOK
+          failedEver, created, depsOK, popOK, endOK, faultOK, lazyOK, selfOnlyOK, lookupOK, procOK
 vars == <<l, sc, L1, L2, L3, inCr, fS, fL, run, cnt, mpc, orderOK, erCnt, seenRefs, reentered,
-          failedEver, created, depsOK, popOK, endOK, faultOK, lazyOK, selfOnlyOK, lookupOK>>
+          failedEver, created, depsOK, popOK, endOK, faultOK, lazyOK, selfOnlyOK, lookupOK, procOK>>
 
 ScOf(j) == [single   |-> [n \in Node |-> ToSet(j.single[n])],
             selfOpt  |-> [n \in Node |-> j.selfOpt[n]],
@@ -30,6 +30,7 @@ ScOf(j) == [single   |-> [n \in Node |-> ToSet(j.single[n])],
             lazy     |-> ToSet(j.lazy),
             wrap     |-> [n \in Node |-> j.wrap[n]],
             fail     |-> [n \in Node |-> j.fail[n]],
+            procs    |-> [p \in 1..Len(j.procs) |-> j.procs[p]],
             sparse   |-> j.sparse]
 
 ZeroCnt == [c \in Callbacks |-> 0]
@@ -40,7 +41,7 @@ FreshP(s) ==
   /\ run' = "running" /\ cnt' = [n \in Node |-> ZeroCnt] /\ mpc' = [n \in Node |-> "idle"]
   /\ orderOK' = TRUE /\ erCnt' = [n \in Node |-> 0] /\ seenRefs' = [n \in Node |-> {}]
   /\ reentered' = FALSE /\ failedEver' = FALSE /\ created' = {} /\ depsOK' = TRUE /\ popOK' = TRUE /\ endOK' = TRUE /\ faultOK' = TRUE /\ lazyOK' = TRUE
-  /\ selfOnlyOK' = TRUE /\ lookupOK' = TRUE
+  /\ selfOnlyOK' = TRUE /\ lookupOK' = TRUE /\ procOK' = TRUE
 Init ==
   /\ l = 2 /\ sc = ScOf(Trace[1].sc)
   /\ L1 = [n \in Node |-> NoV] /\ L2 = [n \in Node |-> NoV] /\ L3 = {} /\ inCr = {}
@@ -48,7 +49,7 @@ Init ==
   /\ run = "running" /\ cnt = [n \in Node |-> ZeroCnt] /\ mpc = [n \in Node |-> "idle"]
   /\ orderOK = TRUE /\ erCnt = [n \in Node |-> 0] /\ seenRefs = [n \in Node |-> {}]
   /\ reentered = FALSE /\ failedEver = FALSE /\ created = {} /\ depsOK = TRUE /\ popOK = TRUE /\ endOK = TRUE /\ faultOK = TRUE /\ lazyOK = TRUE
-  /\ selfOnlyOK = TRUE /\ lookupOK = TRUE
+  /\ selfOnlyOK = TRUE /\ lookupOK = TRUE /\ procOK = TRUE
 
 E == Trace[l]
 
@@ -109,6 +110,8 @@ LazyCheck == (E.ev = "runReturn" /\ E.ok /\ ~failedEver) => created = EagerReach
 SelfOnlyCheck == (E.ev = "runReturn" /\ NoSubst(sc) /\ ~E.panic /\ ~reentered) =>
                     ((~E.ok) <=> (\E h \in EagerReach(sc) : SelfOnly(sc, h)))
 
+\* C05: only an eager user post-processor is initialised, once, and before any ordinary component is created
+ProcCheck == E.ev = "procInit" => (E.n \in 1..Len(sc.procs) /\ ~sc.procs[E.n] /\ created = {})
 Step ==
   /\ l <= Len(Trace) /\ l' = l + 1
   /\ IF E.ev = "scenario" THEN FreshP(ScOf(E.sc))
@@ -117,8 +120,8 @@ Step ==
           /\ run' = IF E.ev = "runReturn" THEN (IF E.panic THEN "panic" ELSE IF E.ok THEN "ok" ELSE "err")
                     ELSE IF E.ev = "lookupPanic" THEN "panic" ELSE run
           /\ cnt' = IF E.ev \in Callbacks THEN [cnt EXCEPT ![E.n][E.ev] = @ + 1] ELSE cnt
-          /\ mpc' = IF E.n \in Node THEN [mpc EXCEPT ![E.n] = NextPc(E.ev, @)] ELSE mpc
-          /\ orderOK' = (orderOK /\ (E.n \in Node => NextPc(E.ev, mpc[E.n]) # "BAD"))
+          /\ mpc' = IF E.n \in Node /\ E.ev # "procInit" THEN [mpc EXCEPT ![E.n] = NextPc(E.ev, @)] ELSE mpc
+          /\ orderOK' = (orderOK /\ ((E.n \in Node /\ E.ev # "procInit") => NextPc(E.ev, mpc[E.n]) # "BAD"))
           /\ erCnt' = IF E.ev = "createBegin" THEN [erCnt EXCEPT ![E.n] = 0]
                       ELSE IF E.ev = "get" /\ E.ran /\ ~E.err THEN [erCnt EXCEPT ![E.n] = @ + 1] ELSE erCnt
           /\ seenRefs' = IF E.ev = "createBegin" THEN [seenRefs EXCEPT ![E.n] = {}]
@@ -127,6 +130,7 @@ Step ==
           /\ reentered' = (reentered \/ E.ev = "reentry")
           /\ failedEver' = (failedEver \/ (E.ev = "createEnd" /\ ~E.ok) \/ (E.ev = "get" /\ E.err))
           /\ created' = IF E.ev = "createBegin" THEN created \cup {E.n} ELSE created
+          /\ procOK' = (procOK /\ ProcCheck)
           /\ depsOK' = (depsOK /\ DepsCheck) /\ popOK' = (popOK /\ PopCheck) /\ endOK' = (endOK /\ EndCheck)
           /\ faultOK' = (faultOK /\ FaultCheck) /\ lazyOK' = (lazyOK /\ LazyCheck) /\ selfOnlyOK' = (selfOnlyOK /\ SelfOnlyCheck)
           \* what GetComponentByName hands to the user is the published object, never a half-built one
@@ -165,6 +169,7 @@ M_C05_DepsFirst == depsOK
 M_C05_PopulatedBeforeInit == popOK
 M_C05_AllCallbacks == endOK
 M_C05_Lazy == lazyOK
+M_C05_LazyProcs == procOK
 M_C09_FaultFails == faultOK
 M_C02_FailIffSelfOnly == selfOnlyOK
 M_C09_NoPanic == run # "panic"
